@@ -49,7 +49,7 @@ def check(ctx):
            ok1, f.where, detail)
     # no narrowing on the value path: the quotient, the shifted amount and the result keep at least int / CAmount width
     WIDE = {"int", "const int", "long", "const long", "int64_t", "const int64_t", "CAmount", "const CAmount", "unsigned int", "const unsigned int", "uint64_t", "const uint64_t", "long long"}
-    narrow = [(st.get("n"), st.get("ty")) for st in stmts(f.body) if st.get("k") == "decl" and st.get("ty") not in WIDE]
+    narrow = [(st.get("n"), st.get("ty")) for st in stmts(f.body) if st.get("k") == "decl" and st.get("ty") not in WIDE and st.get("ty") not in ("bool", "const bool")]
     ctx.ob("GetBlockSubsidy/no-narrowing", "VALUE-GRAPH", "the halving count and the subsidy amount are held in int / CAmount-wide variables (a narrower type would wrap the "
            "halving count before the >= 64 test) and the function returns CAmount", not narrow and f.d.get("ret") in ("CAmount", "int64_t", "long"), f.where,
            {"narrow_locals": narrow, "return_type": f.d.get("ret")})
